@@ -58,7 +58,15 @@ class JSONLinesWriter:
                 # If the first document is not a start document, use the current date
                 self.filename = f"{datetime.today().strftime('%Y-%m-%d')}.jsonl"
         mode = "a" if (self.dirname / self.filename).exists() else "w"
+        # The last line of an existing file may lack its terminator (a file written by another tool, or one
+        # left behind by an interrupted session): start on a fresh line rather than appending to that one.
+        separator = ""
+        if mode == "a":
+            with open(self.dirname / self.filename, "rb") as file:
+                if file.seek(0, 2) and file.seek(-1, 2) >= 0 and file.read(1) != b"\n":
+                    separator = "\n"
 
         with open(self.dirname / self.filename, mode) as file:
+            file.write(separator)
             json.dump({"name": name, "doc": doc}, file)
             file.write("\n")
